@@ -5,6 +5,8 @@ func init() {
 	register("A3.32", "hand-off (32-bit): every store into a slot stores an owned container, or moves a container with its flag, or shares it with destination flag true and source flag ensured true", func(p *Prog) *RuleResult { return ruleTL(p, "A3", "32", 40) })
 	register("A2.64", "write gate (64-bit buckets)", func(p *Prog) *RuleResult { return ruleTL(p, "A2", "64", 10) })
 	register("A3.64", "hand-off (64-bit buckets)", func(p *Prog) *RuleResult { return ruleTL(p, "A3", "64", 20) })
+	register("F3.32", "empty-result elision (32-bit): the result of every may-empty container operation that reaches a slot is tested with isEmpty, and every store of it is guarded by that test (or followed by the isEmpty->remove idiom)", func(p *Prog) *RuleResult { return ruleTL(p, "F3", "32", 15) })
+	register("F3.64", "empty-result elision (64-bit buckets)", func(p *Prog) *RuleResult { return ruleTL(p, "F3", "64", 10) })
 }
 
 func ruleTL(p *Prog, rule, level string, min int) *RuleResult {
